@@ -15,7 +15,7 @@ import (
 // Solver answers satisfiability queries with a chain of SMT back ends, each kept
 // alive as one process: the first definitive answer (sat/unsat) decides; an
 // unknown/timeout/error falls through to the next back end. Default chain:
-// z3 4.8.12 (short timeout) -> z3 5.1.0 -> cvc5.
+// z3 4.8.12 (short timeout) -> cvc5 -> z3 5.1.0.
 type backend struct {
 	name      string
 	cmdline   []string
@@ -61,8 +61,8 @@ func NewSolver(cmdline []string, timeoutMs int, logPath string) (*Solver, error)
 		}
 		s.backends = []*backend{
 			{name: "z3-4.8.12", cmdline: []string{"z3", "-in"}, timeoutMs: first, prelude: "(set-option :produce-models true)\n(set-option :timeout %d)\n"},
-			{name: "z3-5.1.0", cmdline: []string{"z3-new", "-in"}, timeoutMs: timeoutMs, prelude: "(set-option :produce-models true)\n(set-option :timeout %d)\n"},
 			{name: "cvc5-1.0", cmdline: []string{"cvc5", "--incremental", "--strings-exp", "--lang=smt2"}, timeoutMs: timeoutMs, prelude: "(set-option :produce-models true)\n(set-option :tlimit-per %d)\n(set-logic ALL)\n"},
+			{name: "z3-5.1.0", cmdline: []string{"z3-new", "-in"}, timeoutMs: timeoutMs, prelude: "(set-option :produce-models true)\n(set-option :timeout %d)\n"},
 		}
 	} else {
 		s.backends = []*backend{{name: cmdline[0], cmdline: cmdline, timeoutMs: timeoutMs, prelude: "(set-option :produce-models true)\n(set-option :timeout %d)\n"}}
@@ -200,13 +200,17 @@ func neededAliases(texts []string) []aliasDef {
 
 // readLineDeadline reads one response line, killing the solver when it does not
 // answer within the deadline.
-func (b *backend) readLineDeadline(d time.Duration) (string, bool) {
+func (b *backend) readLineDeadline(d time.Duration, cancel <-chan struct{}) (string, bool) {
 	ch := make(chan string, 1)
 	go func() { ch <- b.readLine() }()
 	select {
 	case l := <-ch:
 		return l, true
 	case <-time.After(d):
+		b.cmd.Process.Kill()
+		<-ch
+		return "", false
+	case <-cancel:
 		b.cmd.Process.Kill()
 		<-ch
 		return "", false
@@ -275,15 +279,17 @@ func (s *Solver) Check(asserts []*Term, wantModel []*Term) (string, map[string]s
 	decl.WriteString("(check-sat)")
 	res := "unknown"
 	var model map[string]string
-	for _, be := range s.backends {
+	query := decl.String()
+	// ask runs one back end; it returns the verdict (sat/unsat/unknown) and the model
+	ask := func(be *backend, done <-chan struct{}) (string, map[string]string) {
 		t0 := time.Now()
 		be.Queries++
-		s.sendTo(be, "(reset)\n"+fmt.Sprintf(be.prelude, be.timeoutMs)+decl.String())
-		r, ok := be.readLineDeadline(time.Duration(be.timeoutMs)*time.Millisecond + 8*time.Second)
-		be.Time += time.Since(t0)
+		defer func() { be.Time += time.Since(t0) }()
+		s.sendTo(be, "(reset)\n"+fmt.Sprintf(be.prelude, be.timeoutMs)+query)
+		r, ok := be.readLineDeadline(time.Duration(be.timeoutMs)*time.Millisecond+8*time.Second, done)
 		if !ok {
 			be.restart()
-			continue
+			return "unknown", nil
 		}
 		if strings.HasPrefix(r, "(error") {
 			// an (error line means the query was not understood by this back end: inconclusive there
@@ -292,20 +298,52 @@ func (s *Solver) Check(asserts []*Term, wantModel []*Term) (string, map[string]s
 			}
 			s.Errors++
 			be.restart()
-			continue
+			return "unknown", nil
 		}
-		if r == "sat" || r == "unsat" {
-			res = r
-			be.Decided++
-			if r == "sat" && len(wantModel) > 0 {
-				mn := make([]string, 0, len(wantModel))
-				for _, v := range wantModel {
-					mn = append(mn, v.Name)
-				}
-				s.sendTo(be, "(get-value ("+strings.Join(mn, " ")+"))")
-				model = parseGetValue(be.readSexp())
+		if r != "sat" && r != "unsat" {
+			return "unknown", nil
+		}
+		be.Decided++
+		var m map[string]string
+		if r == "sat" && len(wantModel) > 0 {
+			mn := make([]string, 0, len(wantModel))
+			for _, v := range wantModel {
+				mn = append(mn, v.Name)
 			}
-			break
+			s.sendTo(be, "(get-value ("+strings.Join(mn, " ")+"))")
+			m = parseGetValue(be.readSexp())
+		}
+		return r, m
+	}
+	// stage 1: primary back end alone
+	res, model = ask(s.backends[0], nil)
+	// stage 2: the remaining back ends race; the first definitive answer wins
+	if res == "unknown" && len(s.backends) > 1 {
+		type ans struct {
+			r string
+			m map[string]string
+		}
+		rest := s.backends[1:]
+		ch := make(chan ans, len(rest))
+		done := make(chan struct{})
+		for _, be := range rest {
+			be := be
+			go func() {
+				r, m := ask(be, done)
+				ch <- ans{r, m}
+			}()
+		}
+		closed := false
+		for range rest {
+			a := <-ch
+			if !closed && (a.r == "sat" || a.r == "unsat") {
+				res, model = a.r, a.m
+				close(done) // cancels the other back ends (killed and restarted)
+				closed = true
+			}
+		}
+		if !closed {
+			close(done)
 		}
 	}
 	s.Time += time.Since(start)
